@@ -114,8 +114,8 @@ structure VarSpec where
   /-- only for `var v, ok = m[k]` and `var v, ok = <-c` (package-level comma-ok declarations,
       accepted since e4c80e1): the map / channel variable is declared later in the source than this
       specification. `compDefineX`, called by `gta` when it meets the specification, needs the type
-      of that operand at once — only a *call* source is retried — and stops the interpreter with a Go
-      panic ("incomplete type", "nil type"): finding F15-9. -/
+      of that operand; before the repair of F15-9 (fb8122a) only a *call* source was retried and the
+      interpreter stopped with a Go panic ("incomplete type", "nil type"). -/
   operandLater : Bool := false
   deriving DecidableEq, Repr
 
@@ -190,6 +190,9 @@ structure DepFacts where
   multiGlobal : Bool
   /-- `gta`, `case defineXStmt`: `revisit = append(revisit, n)` while the callee is incomplete (F15-7) -/
   multiRetry : Bool
+  /-- `gta`, `case defineXStmt`: the retry also awaits the map / channel / asserted type of a comma-ok
+      source (`case src.kind == callExpr, src.kind == indexExpr, src.kind == unaryExpr && …`; F15-9) -/
+  operandRetry : Bool
   /-- `ast`, `case token.VAR` under a `fileStmt`: `a.Specs = splitVarSpecs(a.Specs)` (F15-3) -/
   splitPaired : Bool
   /-- `genGlobalVarDecl`: the specifications for which `getVarDependencies` is not called -/
@@ -359,11 +362,15 @@ def runSteps (order : Res) (p : Pkg) : Bool → List String → Trace
     (`VarSpec.operandLater`): `gta` panics -/
 def operandLate (p : Pkg) : Bool := p.vars.any (fun v => v.multi && v.operandLater)
 
+/-- `gta` panics at a comma-ok declaration whose operand is declared later, unless it comes back
+    to such declarations too (`DepFacts.operandRetry`) -/
+def gtaPanics (d : DepFacts) (p : Pkg) : Bool := !(d.multiRetry && d.operandRetry) && operandLate p
+
 /-- `gta` fails before anything runs: a multi-value declaration whose callee is declared later,
     unless `gta` comes back to it (see `VarSpec.calleeLater`, `DepFacts.multiRetry`); a comma-ok
-    declaration whose operand is declared later -/
+    declaration whose operand is declared later, unless `gta` comes back to that too -/
 def gtaRejects (d : DepFacts) (p : Pkg) : Bool :=
-  (!d.multiRetry && p.vars.any (fun v => v.multi && v.calleeLater)) || operandLate p
+  (!d.multiRetry && p.vars.any (fun v => v.multi && v.calleeLater)) || gtaPanics d p
 
 /-- `Eval` of a complete file = `CompileAST` (which appends `main` to the init list) then
     `Execute`: the root node (declarations only, logs nothing), the ordered global variables, the
